@@ -780,7 +780,7 @@ func (a *act) makeIface(x Val, from types.Type, to types.Type) Val {
 		b, _ := fx.boxFn(x.S)
 		t = fmt.Sprintf("(mk-iface %s %s)", tag, App(b, x.T))
 	}
-	return Val{T: t, S: SIface, GT: to, Fn: x.Fn, Bind: x.Bind}
+	return Val{T: t, S: SIface, GT: to, Fn: x.Fn, Bind: x.Bind, Dyn: from}
 }
 
 func (a *act) typeAssert(in *ssa.TypeAssert, guard string, st *State) Val {
